@@ -156,6 +156,45 @@ def mode_expectation(c, out):
     return None
 
 
+def run_rewritten(prev, c, d, idx):
+    """the same template objects, having held another document before: write() again / the file rewritten under auto_reload"""
+    from chameleon import PageTemplate, PageTemplateFile
+    kw = {k: talgen.pyval(v, c['objs']) for k, v in c['vars']}
+    res = {}
+    try:
+        t = PageTemplate(prev['data'])
+    except Exception:
+        t = None
+    if t is not None:
+        try:
+            t.write(c['data'])
+            res['write() on an object that held another document'] = {'out': t(**kw), 'content_type': t.content_type, 'content_encoding': t.content_encoding}
+        except Exception as e:
+            res['write() on an object that held another document'] = {'exc': type(e).__name__, 'msg': str(e).split('\n')[0][:120]}
+    path = os.path.join(d, 'rw%d.pt' % idx)
+    try:
+        with open(path, 'wb') as f:
+            f.write(prev['data'])
+        os.utime(path, (1000, 1000))
+        try:
+            t = PageTemplateFile(path, auto_reload=True)
+            t.cook_check()
+        except Exception:
+            t = None
+        if t is not None:
+            with open(path, 'wb') as f:
+                f.write(c['data'])
+            os.utime(path, (2000, 2000))
+            try:
+                res['file rewritten under auto_reload'] = {'out': t(**kw), 'content_type': t.content_type, 'content_encoding': t.content_encoding}
+            except Exception as e:
+                res['file rewritten under auto_reload'] = {'exc': type(e).__name__, 'msg': str(e).split('\n')[0][:120]}
+    finally:
+        if os.path.exists(path):
+            os.unlink(path)
+    return res
+
+
 def run_pair(c, d, idx):
     """render bytes (string class or file class) and the str document; -> (result_bytes, result_str, meta)"""
     from chameleon import PageTemplate, PageTemplateFile
@@ -245,6 +284,7 @@ def oracle(ctx):
     try:
         n = ctx.budget(1500, 80000)
         i = 0
+        prev = None
         while i < n:
             c = make_case(ctx.rng)
             if c is None:
@@ -261,7 +301,12 @@ def oracle(ctx):
                 if rb.get('exc') != rs['exc'] or rf.get('exc') != rs['exc']:
                     ctx.violation('bytes and str input fail differently', inp, expected=rs, actual={'bytes': rb, 'file': rf})
                 continue
-            for label, r in (('PageTemplate(bytes)', rb), ('PageTemplateFile', rf)):
+            extra = []
+            if prev is not None and i % 3 == 0:
+                extra = list(run_rewritten(prev, c, d, i).items())
+                ctx.count('evaluations', len(extra))
+            prev = c
+            for label, r in [('PageTemplate(bytes)', rb), ('PageTemplateFile', rf)] + extra:
                 if r.get('out') != rs['out']:
                     ctx.violation('%s does not render like the same document supplied as str' % label, inp, expected=rs, actual=r)
                     break
